@@ -1,2 +1,141 @@
-(** C34 — property theorems only (placeholder while the proofs are written). *)
-From C33 Require Import C34.Model.
+(** C34 — property theorems only.
+    [hs t]: identity of Transaction.Hash() of transaction [t]; [sh h]: the
+    5-byte short hash of hash [h].  A pool-level transaction [e] stands for
+    the block-level transactions [unit_txs e] (itself, or the members of the
+    group it carries); [uhead e] is the first of them.  [build_lt hs sh b] is
+    the light form of the sender's block [b]; [add_lt] is addLtBlock on the
+    receiving node with short-hash index [p]; [tick_raw] one iteration of
+    pendBlockLoop; [astep] one event of the receiving node with its mempool.
+    [exact0 b] is [b] with MainHash/MainHeight unset, [full_block b] is [b]. *)
+From Coq Require Import List ZArith NArith Bool Lia.
+From C33 Require Import C33.Model C34.Model C34.Spec C34.ProofsFill C34.ProofsLife C34.ProofsPartial C34.ProofsThm.
+Import ListNotations.
+Open Scope Z_scope.
+
+(** ** all transactions available *)
+
+(** full strength: when every unit of the block is found under the short hash
+    of its first transaction, the block handed to the blockchain module is
+    identical to the original *)
+Definition C34_rebuild_exact_full : Prop :=
+  forall hs sh c p now from pub b miner es st,
+    ob_txs b = miner :: flat_map unit_txs es ->
+    Z.of_nat (length (ob_txs b)) <= c_cap c -> Z.of_nat (length (ob_txs b)) <= max_len ->
+    all_found hs sh p es ->
+    add_lt c p now from pub (build_lt hs sh b) st = Ok (st, [Post pub (full_block b)]).
+
+(** refuted: MainHash/MainHeight are not part of the light block's header *)
+Theorem C34_rebuild_exact_refuted : ~ C34_rebuild_exact_full.
+Proof.
+  intros H. destruct witness_facts as [W [F _]]. destruct main_dropped as [E N].
+  assert (X : Z.of_nat (length (ob_txs (blk_w 3))) <= c_cap cfg1) by (vm_compute; discriminate).
+  assert (Y : Z.of_nat (length (ob_txs (blk_w 3))) <= max_len) by (vm_compute; discriminate).
+  pose proof (H hs_w sh_id cfg1 (mp_idx mp_w) 0 1%N 2%N (blk_w 3) 1%N es_w init W X Y F) as H1.
+  rewrite E in H1. injection H1 as H2. discriminate H2.
+Qed.
+Print Assumptions C34_rebuild_exact_refuted.
+
+(** partial (guard: the block has no MainHash/MainHeight): posted at once,
+    same transactions in the same positions, same header fields (hence the same hash) *)
+Theorem C34_rebuild_exact : forall hs sh c p now from pub b miner es st,
+  N.eqb (ob_main b) 0 = true ->
+  ob_txs b = miner :: flat_map unit_txs es ->
+  Z.of_nat (length (ob_txs b)) <= c_cap c -> Z.of_nat (length (ob_txs b)) <= max_len ->
+  all_found hs sh p es ->
+  add_lt c p now from pub (build_lt hs sh b) st = Ok (st, [Post pub (full_block b)]).
+Proof.
+  intros hs sh c p now from pub b miner es st G W C1 C2 F. apply N.eqb_eq in G.
+  rewrite <- (exact0_full b G). eapply rebuild_exact0; eauto.
+Qed.
+Print Assumptions C34_rebuild_exact.
+
+(** without the guard: identical up to MainHash/MainHeight *)
+Theorem C34_rebuild_exact_up_to_main : forall hs sh c p now from pub b miner es st,
+  ob_txs b = miner :: flat_map unit_txs es ->
+  Z.of_nat (length (ob_txs b)) <= c_cap c -> Z.of_nat (length (ob_txs b)) <= max_len ->
+  all_found hs sh p es ->
+  add_lt c p now from pub (build_lt hs sh b) st = Ok (st, [Post pub (exact0 b)]).
+Proof. exact rebuild_exact0. Qed.
+Print Assumptions C34_rebuild_exact_up_to_main.
+
+(** where [all_found] comes from: after the arrival of the pool-level
+    transactions [ts] in an empty mempool, each of them is found under its own
+    short hash, provided the short hashes of the pooled transactions are
+    pairwise different (the injectivity guard) and the cache is not full *)
+Theorem C34_index_after_arrivals : forall hs sh cap ts t,
+  NoDup (map (key hs sh) ts) -> Z.of_nat (length ts) <= cap -> In t ts ->
+  pool_get (key hs sh t) (mp_idx (push_all hs sh cap ts mp_empty)) = Some t.
+Proof. exact index_after_arrivals. Qed.
+Print Assumptions C34_index_after_arrivals.
+
+Theorem C34_rebuild_guard_example :
+  ob_txs (blk_w 0) = 1%N :: flat_map unit_txs es_w
+  /\ all_found hs_w sh_id (mp_idx mp_w) es_w
+  /\ NoDup (map (key hs_w sh_id) es_w).
+Proof. exact witness_facts. Qed.
+Print Assumptions C34_rebuild_guard_example.
+
+(** ** some transactions missing *)
+
+(** arrival of the light form of an honest sender's block (miner transaction
+    followed by the units [es]; for every unit the pool answers with the unit's
+    own pool-level transaction or with nothing): posted at once when complete,
+    otherwise nothing is posted and the block, with the found units filled in,
+    joins the pending list *)
+Theorem C34_arrival : forall hs sh c p now from pub b miner es st,
+  ob_txs b = miner :: txs_of (fresh es) ->
+  Z.of_nat (length (ob_txs b)) <= c_cap c -> Z.of_nat (length (ob_txs b)) <= max_len ->
+  Forall (honest1 (shh hs sh) p) (fresh es) ->
+  let u := mkUb from pub now b miner (fresh es) in
+  add_lt c p now from pub (build_lt hs sh b) st =
+  if ub_done hs sh p u
+  then Ok (st, [Post pub (exact0 b)])
+  else Ok (mkSt (st_filter st) (st_pend st ++ [pd_of hs sh (ub_upd hs sh p u)]) (st_reqs st) (st_height st), []).
+Proof. exact arrival_units. Qed.
+Print Assumptions C34_arrival.
+
+(** one iteration of the pending loop over any list of such blocks is [uscan]:
+    a block that is complete now is posted (identical up to MainHash) and
+    dropped; an incomplete block whose pending time has reached the timeout is
+    dropped and exactly one request for its height goes to the peer it came
+    from if the height is ahead of the node's; every other block stays, with
+    the units found meanwhile filled in, and nothing is posted for it *)
+Theorem C34_missing_waits_then_requests : forall hs sh c p now st l,
+  st_pend st = map (pd_of hs sh) l -> Forall ub_wf l -> Forall (ub_honest hs sh p) l ->
+  tick_raw c p now st =
+  match uscan hs sh p now (c_timeout c) l with
+  | (k, t, e) =>
+      Ok (mkSt (st_filter st) (map (pd_of hs sh) k) (st_reqs st) (st_height st),
+          e ++ flat_map (ureq (st_height st)) t)
+  end.
+Proof. exact tick_units. Qed.
+Print Assumptions C34_missing_waits_then_requests.
+
+(** the same for a single pending block, spelled out *)
+Theorem C34_single_block_life : forall hs sh c p now st u,
+  st_pend st = [pd_of hs sh u] -> ub_wf u -> ub_honest hs sh p u ->
+  tick_raw c p now st =
+  if ub_done hs sh p u
+  then Ok (mkSt (st_filter st) [] (st_reqs st) (st_height st), [Post (ub_pub u) (exact0 (ub_b u))])
+  else if c_timeout c <=? Z.quot (now - ub_ts u) 1000000
+       then Ok (mkSt (st_filter st) [] (st_reqs st) (st_height st), ureq (st_height st) u)
+       else Ok (mkSt (st_filter st) [pd_of hs sh (ub_upd hs sh p u)] (st_reqs st) (st_height st), []).
+Proof. exact single_block_life. Qed.
+Print Assumptions C34_single_block_life.
+
+Theorem C34_life_example :
+  ub_wf u_miss /\ ub_honest hs_w sh_id (mp_idx mp_miss) u_miss
+  /\ ub_done hs_w sh_id (mp_idx mp_miss) u_miss = false
+  /\ add_lt cfg1 (mp_idx mp_miss) 0 1%N 2%N (build_lt hs_w sh_id (blk_w 0)) init
+     = Ok (mkSt [] [pd_of hs_w sh_id (ub_upd hs_w sh_id (mp_idx mp_miss) u_miss)] [] 0, [])
+  /\ ureq 0 u_miss = [Req 1%N 7].
+Proof. exact life_example. Qed.
+Print Assumptions C34_life_example.
+
+(** ** never a partial block: whatever the light blocks, the pool and the
+    history look like, no block with a nil slot reaches the blockchain module *)
+Theorem C34_never_posts_partial : forall hs sh c shcap w a w' e ok pub blk,
+  astep hs sh c shcap w a = AAlive w' e ok -> In (Post pub blk) e ->
+  forall j, nth_error (b_txs blk) j <> Some None.
+Proof. exact astep_posts_full. Qed.
+Print Assumptions C34_never_posts_partial.
